@@ -2,10 +2,11 @@
 Spec: specs/Relay/UdpRelay.tla (lifecycle half).  TLC checks NoSendOnClosed/NoLeak/SocketReleased and, under weak fairness
 of the goroutine steps with NAT timers disabled once Stop has begun, StopTerminates (and IdleEvicts).  Binding: the state
 graph (urgent steps taken immediately) is replayed on real NAT relays on loopback, generic and recvmmsg/sendmmsg paths,
-with the verifhook points as scheduler gates; Stop latency, goroutine and socket accounting are checked on the real process."""
+with the verifhook points as scheduler gates; Stop latency, goroutine and socket accounting are checked on the real process.
+System level: specs/System/Manager.tla (Manager.Run start/fail/stop order) run on the real service manager (props/manager.py)."""
 import json
 import vlib
-from props import common, udprelay
+from props import common, udprelay, manager
 
 
 def run(tier, seed, replay):
@@ -100,6 +101,9 @@ def run(tier, seed, replay):
         res = common.absorb(v, res, out, rc, "session churn")
         nch += res["counters"].get("churn_sessions", 0)
     v.coverage["churn_sessions"] = nch
+    # (5) system level: the manager's run loop around the relays (specs/System/Manager.tla), every failing listener or none
+    nmg, smg = manager.lifecycle(v, work, seed, big)
+    n1, s1 = n1 + nmg, s1 + smg
     v.coverage["traces_validated_against_impl"] = n1 + n3
     v.coverage["replayed_steps"] = s1 + s3
     v.coverage["eviction_behaviours"] = n3
